@@ -647,6 +647,13 @@ func genCodecEncT(g *Gen, w *bufio.Writer, t *fTables) {
 			lastWire[fam] = wire
 		}
 		fmt.Fprintf(w, "enc %s hdr=%s %s %s\n", fam, hdr, m.Name, fieldsStr(man, opt))
+		if d != nil && g.Intn(5) == 0 {
+			// the usual caller-built message: only the message type is set in the header view, the other header octets live in
+			// the body (not well-formed in C02's sense, so only purity and the model correspondence judge it)
+			h := make([]byte, d.HeaderLen)
+			h[d.TypeIndex] = wire[d.TypeIndex]
+			fmt.Fprintf(w, "enc %s hdr=%s %s %s\n", fam, hexs(h), m.Name, fieldsStr(man, opt))
+		}
 		if d != nil {
 			fmt.Fprintf(w, "canon %s\n", hexs(wire))
 			fmt.Fprintf(w, "dec plain %s\n", hexs(wire))
